@@ -403,11 +403,16 @@ class Executor:
         # expression is evaluated once for an arbitrary index; the conditions it records become one obligation.
         k0 = z3.Int(self.ctx.fresh("k0"))
         self.lazy_pre = getattr(self, "lazy_pre", [])
-        self.lazy_pre.append([])
-        try:
-            item(k0)
-        finally:
-            pre = self.lazy_pre.pop()
+        pre = []
+        if self.decide(seq.n >= 1 if not isinstance(seq.n, int) else seq.n >= 1, "comprehension.nonempty"):
+            # k0 stands for an arbitrary position of the (non-empty) sequence: obligations posed by callee contracts
+            # while the element is evaluated are obligations "for every element"
+            self.assume(z3.And(0 <= k0, k0 < seq.n))
+            self.lazy_pre.append([])
+            try:
+                item(k0)
+            finally:
+                pre = self.lazy_pre.pop()
         if pre:
             rng = z3.And(0 <= k0, k0 < seq.n) if keep is None else z3.And(0 <= k0, k0 < seq.n, V.asbool(keep(k0)))
             self.oblige(self.site("comprehension") + ".every_element_defined",
